@@ -228,7 +228,7 @@ func (u *uploader) createReport(start time.Time, expiryDate string, countFiles [
 			// this can be made more efficient, when it matters
 			for k, v := range p.Stacks {
 				before, _, _ := strings.Cut(k, "\n")
-				if cfg.HasStack(p.Program, before) && report.X <= cfg.Rate(p.Program, before) {
+				if cfg.HasStack(p.Program, before) && report.X <= cfg.StackRate(p.Program, before) {
 					x.Stacks[k] = v
 				}
 			}
